@@ -26,8 +26,38 @@ class C16(scen.WorldProp):
                   "oracle: rows after the opening = payload rows then rounds, call sequence and the strike each call "
                   "accompanies. non-trivial = at least one payload row with a call was rung")
 
+    def server_case(self, rng):
+        """Under Ringing Room's control: a composition selected by its CompLib address before Look To is rung row for
+        row and called call for call - also when the band, during the opening rounds, selects something for the
+        *next* touch (that fits the tower or does not)."""
+        from harness import implrun
+        from harness.props.c19 import method_msg
+        stage = rng.choice([4, 6])
+        N = stage + rng.choice([0, 2])
+        comp = gens.rand_comp_spec(rng, stage=stage, calls=True, nrows=rng.randint(3, 10))
+        for r in comp["rows"]:
+            r[1] = r[1].replace("That's all", "Plain").replace("Stand", "Bob")
+        cid = rng.randint(10000, 99999)
+        ps = 90
+        I = scen.interval(ps, N)
+        row_t = I * (N + 0.5)
+        t0 = 1000.6 + rng.random()
+        sel = {"m": "row_gen", "json": {"type": "composition", "url": f"https://complib.org/composition/{cid}"},
+               "model_gen": comp}
+        events = [[t0 - 0.4, "msg", sel], call(t0, LOOK_TO),
+                  [t0 + rng.uniform(0.3, 3 + 1.5 * row_t), "msg", method_msg(rng.choice([N + 2, N + 4, 4, N]))]]
+        sc = {"start": 1000.0, "end": t0 + 3 + (len(comp["rows"]) + 8) * row_t, "tower_size": N, "events": events,
+              "complib": {"id": cid, "key": None, "text": implrun.comp_payload(comp), "subst": {}},
+              "on_join": scen.humans_on_join([], "Wheatley", list(range(1, 17))),
+              "bot": scen.bot_cfg({"type": "placeholder"}, up_down_in=True, stop_at_rounds=False, user_name="Wheatley",
+                                  server_id=rng.randint(1, 9)),
+              "rhythm": scen.rhythm_cfg("wait", inertia=1.0, peal_speed=ps)}
+        return {"k": "world", "scenario": sc, "t0": t0, "again": False, "twice": None, "comp": comp}
+
     def cases(self, rng, tier):
         n = 240 if tier == "quick" else 2400
+        for i in range(n // 10):
+            yield self.server_case(rng)
         for i in range(n):
             stage = rng.randint(4, 10)
             N = stage + rng.choice([0, 0, 1, 2]) if stage < 15 else stage
@@ -83,7 +113,7 @@ class C16(scen.WorldProp):
         if reply["crashed"] or reply["handler_crashes"]:
             return f"crash: main={reply['crashed']} handlers={reply['handler_crashes']}"
         N = sc["tower_size"]
-        spec = sc["bot"]["gen"]
+        spec = req.get("comp") or sc["bot"]["gen"]
         stage = spec["stage"]
         if req.get("again"):
             # judge the touch that follows the last Look To (the earlier one only sets the scene)
